@@ -103,20 +103,25 @@ def tokSem (flag : Bool := true) : Sem String :=
       | _ => tokBody c vals
     kind := fun v => if v.startsWith "arr:" then .array else if v.startsWith "true:" then .bool else .other }
 
-inductive Op | run | result (n : String) | flag (b : Bool)
+inductive Op | run | result (n : String) | flag (b : Bool) | add (n : Node)
 
-/-- a history of `run()` / `.result` accesses; `flag` switches the environment condition under which `Fail = flag` bodies fail -/
-def runOps (p : Program) (ops : List Op) : St String × List String :=
-  let (st, _, outs) := ops.foldl (fun (acc : St String × Bool × List String) op =>
-    let (st, fl, outs) := acc
+/-- a history of `run()` / `.result` accesses and `add_command` calls; `flag` switches the environment condition under which
+`Fail = flag` bodies fail -/
+def runOps (lib : String → Option CmdDecl) (p : Program) (ops : List Op) : St String × List String :=
+  let (_, st, _, outs) := ops.foldl (fun (acc : Program × St String × Bool × List String) op =>
+    let (p, st, fl, outs) := acc
     match op with
     | .run =>
         let (st', e) := run (tokSem fl) p st
-        (st', fl, outs ++ [match e with | some e => showPErr e | none => "ok"])
+        (p, st', fl, outs ++ [match e with | some e => showPErr e | none => "ok"])
     | .result n =>
         let (st', e) := runCmd (tokSem fl) p (p.cmds.length + 1) st n
-        (st', fl, outs ++ [match e with | some e => showPErr e | none => "ok"])
-    | .flag b => (st, b, outs ++ ["ok"])) (({ memo := [], log := [] } : St String), true, [])
+        (p, st', fl, outs ++ [match e with | some e => showPErr e | none => "ok"])
+    | .flag b => (p, st, b, outs ++ ["ok"])
+    | .add n =>
+        match fromNodes lib p [n] with
+        | .error e => (p, st, fl, outs ++ [showPErr e])
+        | .ok p' => (p', st, fl, outs ++ ["ok"])) (p, ({ memo := [], log := [] } : St String), true, [])
   (st, outs)
 
 def pOp : P Op := fun ts => do
@@ -125,6 +130,7 @@ def pOp : P Op := fun ts => do
   else if t == "result" then do let (n, r) ← pHex r; pure (.result n, r)
   else if t == "flag0" then pure (.flag false, r)
   else if t == "flag1" then pure (.flag true, r)
+  else if t == "add" then do let (n, r) ← pNode r; pure (.add n, r)
   else none
 
 /-- `prog <env> <ndecls> decl* <nnodes> node* <nops> op*` -/
@@ -142,7 +148,7 @@ def handleProg (toks : List String) : String :=
     match fromNodes lib p0 nodes with
     | .error e => pure ("load " ++ showPErr e)
     | .ok p =>
-      let (st, outs) := runOps p ops
+      let (st, outs) := runOps lib p ops
       pure ("load ok ; " ++ " ".intercalate outs ++ " ; " ++ " ".intercalate (st.log.map showEv) ++ " ; " ++
             " ".intercalate (st.memo.map fun (k, v) => hex k ++ "=" ++ hex v))
   res.getD "bad-prog"
@@ -209,7 +215,7 @@ def handleLoad (toks : List String) : String :=
     match loadSource table lib p0 src with
     | .error e => pure ("load " ++ showPErr e)
     | .ok p =>
-      let (st, outs) := runOps p ops
+      let (st, outs) := runOps lib p ops
       -- the loaded program: result names, command names, arguments with raw values and lines
       let prog := " ".intercalate (p.cmds.map fun c =>
         "cmd(" ++ hex c.resultName ++ "," ++ hex c.decl.name ++ "," ++ showOptNat c.line ++ ",[" ++
